@@ -453,6 +453,7 @@ func (reg *Reg) blobPutUploadChunked(ctx context.Context, r ref.Ref, d descripto
 	chunkURL := *putURL
 	retryLimit := 10 // TODO: pull limit from reghttp
 	retryCur := 0
+	stallCur := 0
 	var err error
 
 	for !finalChunk || chunkStart < bufStart+int64(len(bufBytes)) {
@@ -548,11 +549,21 @@ func (reg *Reg) blobPutUploadChunked(ctx context.Context, r ref.Ref, d descripto
 					retryCur--
 				}
 			}
+			prevStart := chunkStart
 			rangeEnd, err := blobUploadCurBytes(httpResp)
 			if err == nil {
 				chunkStart = rangeEnd + 1
 			} else {
 				chunkStart += int64(chunkSize)
+			}
+			// abort when the session repeatedly fails to advance, otherwise the same chunk is sent forever
+			if chunkStart <= prevStart {
+				stallCur++
+				if stallCur > retryLimit {
+					return d, fmt.Errorf("failed to send blob (chunk), ref %s: upload is not making progress, offset %d%.0w", r.CommonName(), chunkStart, errs.ErrHTTPStatus)
+				}
+			} else {
+				stallCur = 0
 			}
 			location := httpResp.Header.Get("Location")
 			if location != "" {
